@@ -573,6 +573,9 @@ def _parse_attrs(ctx: Ctx, c: Collector) -> None:
         for l in lvs:
             if l[0] == "cmp" and l[1] == "==" and typ in (l[2], l[3]) and [y for y in (l[2], l[3]) if y != typ][0][0] == "const":
                 kinds[l] = ("type", [y for y in (l[2], l[3]) if y != typ][0][1])
+            elif l[0] == "cmp" and l[1] == "in" and l[2] == typ and T.strip(l[3])[0] in ("tuple", "bag") and all(
+                    (y[0] == "const") if T.strip(l[3])[0] == "tuple" else (y[1][0] == "const" and not y[2] and not y[3]) for y in T.strip(l[3])[1]):
+                kinds[l] = ("typeset", frozenset((y[1] if T.strip(l[3])[0] == "tuple" else y[1][1]) for y in T.strip(l[3])[1]))
             elif l[0] == "cmp" and l[1] == "==" and EMPTY in (l[2], l[3]) and any(v == [y for y in (l[2], l[3]) if y != EMPTY][0] for v in res.values()):
                 sub = [y for y in (l[2], l[3]) if y != EMPTY][0]
                 kinds[l] = ("empty", [k for k, v in res.items() if v == sub][0])
@@ -592,7 +595,7 @@ def _parse_attrs(ctx: Ctx, c: Collector) -> None:
             empty = {k: not (bits >> i & 1) for i, k in enumerate(keys)}
             fired = False
             for r, g_all, kinds in cand:
-                a = {l: ((kd[1] == ty) if kd[0] == "type" else empty[kd[1]]) for l, kd in kinds.items()}
+                a = {l: ((kd[1] == ty) if kd[0] == "type" else (ty in kd[1]) if kd[0] == "typeset" else empty[kd[1]]) for l, kd in kinds.items()}
                 if boolfn.eval_leaves(g_all, a):
                     fired = True
             should = any((ty, k) in want and not empty[k] for k in keys)
